@@ -1259,18 +1259,9 @@ func (c Code) Compile() {
 		default:
 			ParsePanic(scope, 0, "%s is not a function", tv)
 		}
-		var f Object
 		switch strings.ToLower(string(sym)) {
 		case "defun", "defmacro", "defvar", "defparameter", "defconstant":
-			f = ListToFunc(scope, list, 0)
-			c[i] = f
-		}
-		if f != nil {
-			name := f.Eval(scope, 0)
-			if newQuote == nil {
-				newQuote = CLPkg.GetFunc("quote").Create
-			}
-			c[i] = newQuote(List{name})
+			c.predefine(scope, i, list)
 		}
 	}
 	// Now convert lists to functions.
@@ -1281,6 +1272,25 @@ func (c Code) Compile() {
 		}
 		c[i] = CompileList(list)
 	}
+}
+
+// predefine evaluates a definition ahead of the rest of the code. If that is
+// not possible yet, for example when the definition names a package that is
+// created by a defpackage earlier in the same code, the definition is left as
+// it is and evaluated in order.
+func (c Code) predefine(scope *Scope, i int, list List) {
+	defer func() {
+		if recover() != nil {
+			c[i] = list
+		}
+	}()
+	f := ListToFunc(scope, list, 0)
+	c[i] = f
+	name := f.Eval(scope, 0)
+	if newQuote == nil {
+		newQuote = CLPkg.GetFunc("quote").Create
+	}
+	c[i] = newQuote(List{name})
 }
 
 // Eval all code elements and return the value of the last evaluation.
